@@ -354,7 +354,7 @@ def run_check(tier, seed):
         except BuildFailed as ex:
             V.broken_tie('harness c13_buf.c no longer compiles against the tree', str(ex)[-1500:])
             return V.finish()
-        ncases = 400 if tier == "quick" else 3000
+        ncases = 400 if tier == "quick" else 8000
         lines, metas = [], []
         # unit: ncmpii_in_swapn on random byte strings
         nsw = 200 if tier == 'quick' else 3000
